@@ -1032,3 +1032,17 @@ Theorem prune_by_ieee_neq_not_pruned_proof :
   exists (nan fill : Z) (data : list Z),
     forallb (fun v => negb (v =? fill)) (prune_by (fun v => ieee_neq nan v fill) data) = false.
 Proof. exists 99, 99, [10; 99; 25]. reflexivity. Qed.
+
+(* ------------------------------------------------------------------ the sort key must be signed and wide *)
+
+(* in an unsigned type the "already sorted" test of _sort_indices is vacuous ... *)
+Theorem nondec_wrapped_always_proof (w : Z) (l : list Z) : 0 <= w -> nondec_wrapped w l = true.
+Proof.
+  intros Hw. induction l as [|a r IH]; [reflexivity|]. simpl. destruct r as [|b r']; [reflexivity|].
+  rewrite IH, andb_true_r. apply Z.leb_le. apply Z.mod_pos_bound. apply Z.pow_pos_nonneg; lia.
+Qed.
+
+(* ... so it would accept an unsorted key list, which the test on the signed key rejects *)
+Theorem unsigned_key_test_accepts_unsorted_proof :
+  exists l : list Z, nondec_wrapped 8 l = true /\ nondec l = false.
+Proof. exists [3; 1; 2]. split; reflexivity. Qed.
